@@ -2,6 +2,7 @@ import CanvasProofs.Lemmas.C16Items
 import CanvasProofs.Lemmas.C16Slice
 import CanvasProofs.Lemmas.C16Reorder
 import CanvasProofs.Lemmas.C16Tiles
+import CanvasProofs.Lemmas.C16ReorderFix
 import CanvasProofs.Lemmas.C16Itemize
 import CanvasProofs.Lemmas.C16Arith
 /-!
@@ -17,36 +18,16 @@ open Canvas.C16
 
 /-! ## (a) GlyphsToItems accounts for every glyph -/
 
-/-- full statement: for every alignment the item sizes add up to the number of glyphs -/
-def sizes_cover_glyphs_statement : Prop :=
-  ∀ (al : Align) (indent : Float) (gs : List G), sizes (toItems al indent gs) = gs.length
-
-/-- proved for Left, Right and Justified, and for Centered when the text has no U+00AD / U+200B -/
-theorem sizes_cover_glyphs_partial (al : Align) (indent : Float) (gs : List G)
-    (h : al = .centered → ∀ g ∈ gs, g.k ≠ .shy ∧ g.k ≠ .zwsp) :
+/-- for every alignment, indent, glyph-class list and advance the item sizes add up to the number of
+glyphs (CR LF counts two: the LF is added to the penalty of the CR) -/
+theorem sizes_cover_glyphs (al : Align) (indent : Float) (gs : List G) :
     sizes (toItems al indent gs) = gs.length :=
-  toItems_sizes al indent gs h
-
-/-- the alignments ToText uses (Left, Justified) and Right are covered without side condition -/
-theorem sizes_cover_glyphs_noncentered (al : Align) (indent : Float) (gs : List G) (h : al ≠ .centered) :
-    sizes (toItems al indent gs) = gs.length :=
-  toItems_sizes al indent gs (fun hc => absurd hc h)
-
-example : ∃ (al : Align) (gs : List G), (al = .centered → ∀ g ∈ gs, g.k ≠ .shy ∧ g.k ≠ .zwsp) ∧ gs ≠ [] :=
-  ⟨.left, [⟨.shy, false, false, 0, 1.0, 1.0⟩], by simp, by simp⟩
+  toItems_sizes al indent gs
 
 def gch : G := ⟨.ch, false, false, 0, 1.0, 0.0⟩
 def gshy : G := ⟨.shy, false, false, 0, 0.0, 1.0⟩
 
-/-- defect witness: under `Centered` an optional hyphen produces no item, so a glyph is unaccounted for -/
-theorem centered_loses_optional_hyphen : sizes (toItems .centered 0.0 [gch, gshy, gch]) = 2 := by
-  decide
-
-theorem sizes_cover_glyphs_statement_false : ¬ sizes_cover_glyphs_statement := by
-  intro h
-  have := h .centered 0.0 [gch, gshy, gch]
-  rw [centered_loses_optional_hyphen] at this
-  simp at this
+example : sizes (toItems .centered 0.0 [gch, gshy, gch]) = 3 := by decide
 
 /-! ## (b) line slicing: the glyph ranges of the lines -/
 
@@ -76,74 +57,41 @@ theorem slice_line_consumes_break (shy : Nat → Bool) (n : Nat) (rest : List It
   let b := sliceLine_bounds h
   ⟨b.2.2.2.2.1, b.2.2.2.1, b.2.2.2.2.2⟩
 
-/-- full statement: a soft hyphen at the break is always the last glyph shown -/
-def hyphen_shown_statement : Prop :=
-  ∀ (shy : Nat → Bool) (n : Nat) (rest : List It) (k ag : Nat) (o : LineOut),
-    sliceLine shy n rest k ag = some o → o.line.hyph = true → o.line.stop = o.line.hpos + 1
-
-/-- proved when no glue/penalty carrying glyphs lies between the line start and the break -/
-theorem hyphen_shown_partial (shy : Nat → Bool) (n : Nat) (rest : List It) (k ag : Nat) (o : LineOut)
-    (h : sliceLine shy n rest k ag = some o) (hy : o.line.hyph = true)
-    (hz : ∀ it ∈ rest.take k, it.ty ≠ .box → it.size = 0) :
+/-- a soft hyphen at the break is always the last glyph shown (and it is the break glyph) -/
+theorem hyphen_shown (shy : Nat → Bool) (n : Nat) (rest : List It) (k ag : Nat) (o : LineOut)
+    (h : sliceLine shy n rest k ag = some o) (hy : o.line.hyph = true) :
     o.line.stop = o.line.hpos + 1 ∧ shy o.line.hpos = true :=
-  sliceLine_hyphen h hy hz
+  sliceLine_hyphen h hy
 
 example : ∃ o, sliceLine (fun g => g == 1) 2 [⟨.box, 1⟩, ⟨.pen, 1⟩] 1 0 = some o ∧ o.line.hyph = true ∧
     o.line.stop = 2 := ⟨_, rfl, rfl, rfl⟩
 
-/-- defect witness: `Box Glue(1 glyph) Penalty(U+00AD)` broken at the penalty shows glyphs [0,2): the
-space is kept and the hyphen written at glyph 2 is cut off -/
-theorem hyphen_hidden_after_sized_glue :
-    (slice (fun g => g == 2) 3 0 [⟨.box, 1⟩, ⟨.glue, 1⟩, ⟨.pen, 1⟩] 0 [2]).map (·.lines)
-      = some [⟨0, 2, true, 2⟩] := by
-  decide
-
-theorem hyphen_shown_statement_false : ¬ hyphen_shown_statement := by
-  intro h
-  have := h (fun g => g == 2) 3 [⟨.box, 1⟩, ⟨.glue, 1⟩, ⟨.pen, 1⟩] 2 0 ⟨⟨0, 2, true, 2⟩, 3, 3⟩ rfl rfl
-  simp at this
+/-- `Box Glue(1 glyph) Penalty(U+00AD)` broken at the penalty shows glyphs [0,3): space and hyphen -/
+example : (slice (fun g => g == 2) 3 0 [⟨.box, 1⟩, ⟨.glue, 1⟩, ⟨.pen, 1⟩] 0 [2]).map (·.lines)
+    = some [⟨0, 3, true, 2⟩] := by decide
 
 /-! ## (c) reorderSpans -/
 
 /-- for all inputs: reorderSpans keeps the spans, their logical order, levels and widths (only X changes) -/
-theorem reorder_keeps_spans {α : Type} [Add α] (l : List (Span α)) :
+theorem reorder_keeps_spans {α : Type} [Add α] [Sub α] [LT α] [∀ a b : α, Decidable (a < b)] (l : List (Span α)) :
     (reorder l).map (fun s => (s.level, s.w)) = l.map (fun s => (s.level, s.w)) :=
   reorder_lw l
 
-/-- full statement: the moved spans always tile the interval the input spans tiled -/
-def reorder_tiles_statement : Prop :=
-  ∀ (x0 : Int) (l : List (Span Int)), Contig x0 l → Tiles x0 (reorder l)
+/-- for ALL embedding levels: from spans laid out contiguously (non-negative widths) the output is a
+rearrangement (`List.Perm`) of spans laid contiguously from the same start — no overlap, no hole,
+same total width -/
+theorem reorder_perm (x0 : Int) (l : List (Span Int)) (hc : Contig x0 l) (hw : ∀ s ∈ l, 0 ≤ s.w) :
+    Tiles x0 (reorder l) :=
+  Fix.fix_tiles x0 l hc hw
 
-/-- proved for embedding levels 0 and 1: the output is a rearrangement (`List.Perm`) of spans laid
-contiguously from the same start, hence without overlap and with the same total width -/
-theorem reorder_perm_partial (x0 : Int) (l : List (Span Int)) (hc : Contig x0 l)
-    (hl : ∀ s ∈ l, s.level ≤ 1) : Tiles x0 (reorder l) :=
-  reorder_tiles x0 l hc hl
-
-example : Contig (0 : Int) [⟨1, 0, 3⟩, ⟨1, 3, 4⟩, ⟨0, 7, 5⟩] ∧ ∀ s ∈ [(⟨1, 0, 3⟩ : Span Int), ⟨1, 3, 4⟩, ⟨0, 7, 5⟩], s.level ≤ 1 := by
+example : Contig (0 : Int) [⟨2, 0, 3⟩, ⟨2, 3, 4⟩, ⟨1, 7, 5⟩] ∧ ∀ s ∈ [(⟨2, 0, 3⟩ : Span Int), ⟨2, 3, 4⟩, ⟨1, 7, 5⟩], 0 ≤ s.w := by
   simp [Contig]
 
-/-- defect witness: a line starting with two level-2 spans followed by level 1: span 0 is moved onto
-span 2 (both at x = 7) and nothing is left at x = 0 -/
-theorem reorder_overlap_level2_start :
-    (reorder [(⟨2, 0, 3⟩ : Span Int), ⟨2, 3, 4⟩, ⟨1, 7, 5⟩]).map (·.x) = [7, 3, 7] := by
-  decide
-
-/-- defect witness: levels 1 2 3 3 2 1 — the inner odd run is laid out from the wrong end -/
-theorem reorder_overlap_level3 :
-    (reorder [(⟨1, 0, 1⟩ : Span Int), ⟨2, 1, 1⟩, ⟨3, 2, 1⟩, ⟨3, 3, 1⟩, ⟨2, 4, 1⟩, ⟨1, 5, 1⟩]).map (·.x) = [5, 4, 4, 3, 1, 0] := by
-  decide
-
-/-- defect witness (visual order): levels 0 2 1 0 — the level-1 run that starts with a level-2 span
-is never reversed (rule L2 of the bidi algorithm gives positions 0 4 1 5) -/
-theorem reorder_misses_run_starting_at_level2 :
-    (reorder [(⟨0, 0, 1⟩ : Span Int), ⟨2, 1, 2⟩, ⟨1, 3, 1⟩, ⟨0, 4, 1⟩]).map (·.x) = [0, 1, 3, 4] := by
-  decide
-
-theorem reorder_tiles_statement_false : ¬ reorder_tiles_statement := by
-  intro h
-  have ht := h 0 [⟨2, 0, 3⟩, ⟨2, 3, 4⟩, ⟨1, 7, 5⟩] (by simp [Contig])
-  exact tiles_witness_false ht
+/-- rule L2 on the inputs the unrepaired code got wrong: levels 2 2 1 → visual order c a b;
+1 2 3 3 2 1 → f b d c e a; 0 2 1 0 → a c b d -/
+example : (reorder [(⟨2, 0, 3⟩ : Span Int), ⟨2, 3, 4⟩, ⟨1, 7, 5⟩]).map (·.x) = [5, 8, 0] := by decide
+example : (reorder [(⟨1, 0, 1⟩ : Span Int), ⟨2, 1, 1⟩, ⟨3, 2, 1⟩, ⟨3, 3, 1⟩, ⟨2, 4, 1⟩, ⟨1, 5, 1⟩]).map (·.x) = [5, 1, 3, 2, 4, 0] := by decide
+example : (reorder [(⟨0, 0, 1⟩ : Span Int), ⟨2, 1, 2⟩, ⟨1, 3, 1⟩, ⟨0, 4, 1⟩]).map (·.x) = [0, 2, 1, 4] := by decide
 
 /-! ## (d) ScriptItemizer -/
 
@@ -162,17 +110,19 @@ theorem indexer_spec (ix : List Int) (loc : Int) :
 /-! ## (e) horizontal alignment, (f) line stacking -/
 variable {K : Type} [Field K] [LinearOrder K] [IsStrictOrderedRing K]
 
-theorem align_left (width W indent : K) (first : Bool) :
-    lineX0 HAlign.left width W indent first = ind indent first := lineX0_left ..
+theorem align_left (width tw indent : K) (first : Bool) :
+    lineX0 HAlign.left width tw indent first = ind indent first := lineX0_left ..
 
-theorem align_justify_start (width W indent : K) (first : Bool) :
-    lineX0 HAlign.justify width W indent first = ind indent first := lineX0_justify ..
+theorem align_justify_start (width tw indent : K) (first : Bool) :
+    lineX0 HAlign.justify width tw indent first = ind indent first := lineX0_justify ..
 
-theorem align_right (width W indent : K) (first : Bool) :
-    lineX0 HAlign.right width W indent first + (W - ind indent first) = width := lineX0_right ..
+/-- right-aligned lines end at the width, for every shown width -/
+theorem align_right (width tw indent : K) (first : Bool) :
+    lineX0 HAlign.right width tw indent first + tw = width := lineX0_right ..
 
-theorem align_center (width W indent : K) (first : Bool) :
-    (lineX0 HAlign.center width W indent first + (lineX0 HAlign.center width W indent first + (W - ind indent first))) / 2
+/-- centred lines are centred between the indent (first line) and the width -/
+theorem align_center (width tw indent : K) (first : Bool) :
+    (lineX0 HAlign.center width tw indent first + (lineX0 HAlign.center width tw indent first + tw)) / 2
       = (ind indent first + width) / 2 := lineX0_center ..
 
 theorem align_justified_width (natural stretch width : K) (hs : stretch ≠ 0) :
